@@ -11,13 +11,15 @@ import AmaranthVerif.Model.Fsm
   `(fsm <reg> <dom> (init [S]) (og (S <sig>)*) entry*)` with entries `(state S item*)` and `(ongoing S)`;
 * per step the state and the *name* of the state every FSM is in (as `fsm.decoding` of the real FSM object says).
 
-Answer: `fproc struct=<same|differs> ok=<0|1> ; model=… lowered=… spec=… next=<reg>:<S>,… agree=<0|1> ; …`
+Answer: `fproc struct=<same|differs> ok=<0|1> inits=<0|1> ; model=… lowered=… spec=… next=<reg>:<S>,… agree=<0|1> ; …`
 
 * `struct`: the Model's lowering (`lowerProgram` → `lowerList`) against the statements amaranth built, both pruned of
   empty blocks;
 * `model`: the real statements executed by the process model; `lowered`: the Model's lowering executed;
 * `spec`, `next`: the Spec's step (`fsmSpecStep` / `fsmSpecEdge`) on the program as written: signal values and the
   name of the next state of every FSM (in `FProg.listFsms` order; `?` = in none of its states);
+* `ok`: `FProg.listOk` (the DSL accepts the program; the registers have the model's width); `inits`: every register's
+  initial value is the model's `fsmInitCode`;
 * `agree`: the names sent are what the Model's `decode` reads from the registers.
 -/
 
@@ -95,6 +97,7 @@ def handleFProc : Sexp → Option String
       let fs := FProg.listFsms prog
       let same := reprStr stmt.prune == reprStr lw.prune
       let ok := FProg.listOk ctx none prog
+      let iok := fs.all fun f => Env.val inits f.1.reg == (fsmInitCode f.1 f.2 : Int)
       let rstOn := match rst with | some r => r % 2 == 1 | none => false
       let outs := ss.map fun (env, cf) =>
         let σ := confOf cf
@@ -104,7 +107,7 @@ def handleFProc : Sexp → Option String
                   else fsmSpecEdge ctx inits resetLess prog dom rstOn env σ
         let agree := fs.all fun f => σ f.1.reg == decode (encOrder f.2) (env.val f.1.reg)
         s!"model={showEnv m} lowered={showEnv ml} spec={showEnv sp.1} next={showConf sp.2 fs} agree={if agree then 1 else 0}"
-      some (s!"fproc struct={if same then "same" else "differs"} ok={if ok then 1 else 0} ; " ++ " ; ".intercalate outs)
+      some (s!"fproc struct={if same then "same" else "differs"} ok={if ok then 1 else 0} inits={if iok then 1 else 0} ; " ++ " ; ".intercalate outs)
   | _ => none
 
 /-- `(flower ctx <dom> (fprog item*))` → the Model's statements for the domain (pruned), as text; and what the FSMs
